@@ -1727,8 +1727,10 @@ def check_alloc(tier, seed, chk, prop):
                 what = "each benchmarked call makes exactly one 32-byte allocation on its own thread (the input's 64 bytes are allocated before the start, outputs are dropped after the end)"
                 want = dict(want, **{"alloc count": [1.0] * 4, "alloc bytes": [32.0] * 4, "max alloc count": [1.0] * 4, "max alloc bytes": [32.0] * 4})
             elif style == "plain_alloc_out":
-                what = "each call of the benchmarked function makes one 32-byte allocation and returns it; the output is dropped after the end of the sample"
-                want = dict(want, **{"alloc count": [1.0] * 4, "alloc bytes": [32.0] * 4, "max alloc count": [1.0] * 4, "max alloc bytes": [32.0] * 4})
+                size = float(benches_by_id[leaves[k].case["bench"]].get("alloc_size") or 32)
+                what = "each call of the benchmarked function makes one %d-byte allocation and returns it; the output is dropped after the end of the sample" % size
+                # (the outputs of one sample are all alive until its end: the peak is the sample size times one allocation, per iteration one)
+                want = dict(want, **{"alloc count": [1.0] * 4, "alloc bytes": [size] * 4, "max alloc count": [1.0] * 4, "max alloc bytes": [size] * 4})
             elif style == "values_free_only":
                 what = "each benchmarked call only frees its 64-byte input (the peak relative to the start stays zero)"
                 want = dict(want, **{"dealloc count": [1.0] * 4, "dealloc bytes": [64.0] * 4})
@@ -1792,6 +1794,22 @@ def check_c18(tier, seed, chk):
         if wrong or not right:
             violation(res, dict(sig, **{"class": "prefix-family"}),
                       "byte format %s configured through `%s`: byte sizes / throughputs are printed with the other family of prefixes %s (cells of the configured family: %d)" % (want, name, wrong[:3], len(right)), r)
+    # every printed cell of the allocation family (byte sizes with awkward magnitudes among them) equals the real
+    # formatter's rendering of the figure computed for that benchmark, under both byte formats
+    alc = [c for c in model["cases"] if c["path"].startswith("zoo::alc::")]
+    for name, argv in (("cells decimal", []), ("cells binary", ["--bytes-format", "binary"])):
+        r = run_zoo(binary, ["--bench", "--timer", "tsc", "--sample-count", "2", "--sample-size", "2"] + argv + ["^zoo::alc::"], want_stats=True, clock=CLOCK, timeout=300)
+        count_run(res, r, len(r.out.splitlines()))
+        sig = {"check": "allocation-cells", "route": name}
+        if r.rc != 0:
+            violation(res, dict(sig, **{"class": "crash"}), "%s exited with %s: %s" % (name, r.rc, r.err[-300:]), r)
+            continue
+        roots, errors, header = parse_tree(r.out, True)
+        if errors:
+            violation(res, dict(sig, **{"class": "malformed"}), "%s: the output cannot be parsed back into a tree: %s" % (name, errors[:3]), r)
+            continue
+        want_root = expected_tree(model, alc, "bench", "none", "kind", False, {"sample_count": 2, "sample_size": 2})
+        compare_tree(res, sig, "zoo --bench %s ^zoo::alc::" % " ".join(argv), r, roots, want_root, True, r.stats, check_stats=True)
     res["distinct_outcomes"] = len(routes)
     res["samples"] = [{"routes": [x[0] for x in routes]}]
     res["bounds"] = {"routes": len(routes), "observed": "prefix family (KB.. vs KiB..) of every byte size / byte throughput cell of the forms and allocation families; non-byte throughputs never binary", "tier_zoo": tier}
